@@ -24,17 +24,28 @@ LEVEL_TEXT = ('Partial. Coq theorems over R: the regenerated flow direction is t
               'with or without rate sensitivity, eqps is non-decreasing and the plastic strain keeps its trace (exactly isochoric, no assumption); committing '
               'the state (rate-independent, deviators above the flow-direction threshold 1e-16): same elastic strain, stress on/inside the yield surface '
               'in tensor terms, tensor-level idempotence, SAME ENERGY DENSITY before and after committing. '
-              'All conditional on the root finder returning a number (iteration cap: C17 finding F7, here F13); flat hardening is not excluded '
-              "(end-point rule). NOT proved: scalar<->tensor equivalence and commit invariance for 'large deformations' (multiplicative update; needs the "
-              'functional calculus of exp_symm/log_sqrt_symm), and that jax.grad of the energy before committing equals the elastic stress of the '
-              'committed state (envelope argument) -- both tied/tested on the code (L1/L2); jax.grad of the regenerated hardening energies = written-out '
-              'flow stresses is tied by the stream flow_stress.')
-TECHNIQUE = 'Coq proof (Reals + Coquelicot) over kernels regenerated from the Python AST and a scalar state machine reusing the C17 model; vm_compute/PrimFloat correspondence'
+              "Round 4: FINITE-DEFORMATION kinematics ('large deformations', multiplicative update) at tensor level -- model/M_C09F.v = regenerated "
+              'logarithmic trial strain + state increment + the REGENERATED tail FpNew = exp_symm(dEp) @ FpOld of compute_state_new_finite_deformations, '
+              'log_sqrt_symm / exp_symm the spectral functions V diag(f(lam)) V^T over eigen-solvers: along ANY history of (displacement gradient, dt), all '
+              'laws, with or without rate sensitivity, from any state, eqps is non-decreasing and det Fp keeps its value (det(exp_symm A) = exp(tr A) is '
+              'PROVED from the eigh contract on symmetric matrices, no premise on the solver of log_sqrt_symm; with the solver constructed from the '
+              'spectral theorem of L_C11e.v NO premise on the matrix functions is left and det Fp = 1 from the virgin state); committing the state '
+              '(rate independent, F and Fp invertible, deviators above 1e-16): the recomputed trial strain is Ee_trial - d N (coaxial update), stress '
+              'on/inside the yield surface in tensor terms, tensor-level idempotence of eqps AND Fp (exp_symm(0) = I for every decomposition), same energy '
+              'density, same det Fp. "NEVER NaN": for every flow stress that does not drop over the bracket (all rate-independent laws) the ONLY NaN exit '
+              'is the iteration cap of the root finder (not-bracketed, 0/0, fuel excluded by the C17 result contract); flat hardening returns the '
+              'elastic-predictor bound; LINEAR hardening never returns NaN (one Newton step of the regenerated loop body is proved to converge). '
+              'Remaining conditional on the root finder returning a number: Voce / power-law hardening and rate sensitivity (iteration cap: C17 finding F7, here F13). '
+              'NOT proved: that jax.grad of the energy before committing equals the elastic stress of the committed state (envelope argument) -- tested on '
+              'the code (L2); the eigen-solver eigen_sym33_unit itself (C12) -- theorems hold for every solver meeting the eigh contract; jax.grad of the '
+              'regenerated hardening energies = written-out flow stresses is tied by the stream flow_stress; that the material FACTORIES hand out the '
+              'model the property set asks for when several models are created in one process is tied by the stream factory_history.')
+TECHNIQUE = 'Coq proof (Reals + Coquelicot) over kernels regenerated from the Python AST and a scalar state machine reusing the C17 model and the C11 spectral-function development; vm_compute/PrimFloat correspondence'
 GEN = ['ScalarRootFind', 'Hardening', 'TensorMath', 'J2Flow', 'J2Elastic', 'J2Finite']
-TARGETS = ['proofs/L_C09.vo', 'proofs/L_C09r.vo', 'proofs/L_C09T.vo', 'proofs/L_C09F.vo', 'proofs/L_C09G.vo', 'proofs/L_C09N.vo', 'proofs/L_C09L.vo',
+TARGETS = ['proofs/L_C09.vo', 'proofs/L_C09r.vo', 'proofs/L_C09T.vo', 'proofs/L_C09F.vo', 'proofs/L_C09G.vo', 'proofs/L_C09N.vo', 'proofs/L_C09L.vo', 'proofs/L_C09V.vo',
            'model/M_C09.vo', 'model/M_C09T.vo', 'model/M_C09F.vo']
 COQ_FILES = ['base/Num.v', 'model/M_C17.v', 'model/M_C09.v', 'model/M_C09T.v', 'model/M_C09F.v', 'model/M_C11s.v', 'proofs/L_C17.v', 'proofs/L_C09.v', 'proofs/L_C09r.v',
-             'proofs/L_C09T.v', 'proofs/L_C09F.v', 'proofs/L_C09G.v', 'proofs/L_C09N.v', 'proofs/L_C09L.v', 'proofs/L_C11s.v', 'proofs/L_C11t.v', 'proofs/L_C11e.v',
+             'proofs/L_C09T.v', 'proofs/L_C09F.v', 'proofs/L_C09G.v', 'proofs/L_C09N.v', 'proofs/L_C09L.v', 'proofs/L_C09V.v', 'proofs/L_C11s.v', 'proofs/L_C11t.v', 'proofs/L_C11e.v',
              'proofs/L_C11u.v', 'props/P_C09.v']
 TRUSTED = ['Coq 8.16.1 kernel + vm_compute (no native_compute)',
            'tools/vlib/py2coq.py translator (Hardening.{linear,voce,power_law,power_law_rate_sensitivity}, J2Plastic.compute_flow_direction, '
@@ -45,15 +56,20 @@ TRUSTED = ['Coq 8.16.1 kernel + vm_compute (no native_compute)',
            'energies for the three laws and the rate term; compared at binary64 with jax.grad / jax.grad(jax.grad) of the code (stream flow_stress)',
            'hand-written tensor-level model/M_C09T.v of compute_state_increment / compute_state_new_small_deformations / _energy_density / '
            'incremental_potential (strain kernels regenerated), tied by the stream tensor_small (state, energy density, potential at binary64)',
+           'hand-written glue of model/M_C09F.v (compute_state_new_finite_deformations = regenerated logarithmic strain -> state_increment -> regenerated tail; statement '
+           'order checked on the AST every run), tied by the stream tensor_finite (trial strain, increment, FpNew, energy density at binary64 with the code\'s own '
+           'log_sqrt_symm / exp_symm values as oracles); spectral form of exp_symm / log_sqrt_symm = model/M_C11s.v (C11; tied there and by C12)',
            'binary64 exp/ln of the model are approximations (1e-15 relative) used only for execution']
-ASSUMPTIONS = ['C09_tensor_residual_is_scalar_residual: Section hypotheses DelT = d/d(eqps) of the regenerated deviatoric energy along the return direction and D2T = its derivative (what jax.jacfwd / jax.grad deliver), sum rule for the flow-stress term', 'commit invariance: deviators of the trial and of the committed elastic strain above the flow-direction threshold 1e-16 (stated premise), 0 < Y0, eqps_old >= 0', 'exact real arithmetic in theorems (flat hardening: the residual at the upper bracket end is within the tolerance, the repaired root finder returns that end; F12 fixed)', 'Section hypothesis det(exp A) = exp(tr A) for TensorMath.exp_symm (C09_isochoric)',
+ASSUMPTIONS = ['C09_tensor_residual_is_scalar_residual: Section hypotheses DelT = d/d(eqps) of the regenerated deviatoric energy along the return direction and D2T = its derivative (what jax.jacfwd / jax.grad deliver), sum rule for the flow-stress term', 'commit invariance: deviators of the trial and of the committed elastic strain above the flow-direction threshold 1e-16 (stated premise), 0 < Y0, eqps_old >= 0', 'exact real arithmetic in theorems (flat hardening: the residual at the upper bracket end is within the tolerance, the repaired root finder returns that end; F12 fixed)', 'Section hypothesis det(exp A) = exp(tr A) for TensorMath.exp_symm (old C09_isochoric only; C09_finite_* prove it for the spectral exponential)',
+               'C09_finite_* : the eigen-solver used by exp_symm (for commit invariance also the one used by log_sqrt_symm) returns an orthogonal V and lam with V diag(lam) V^T = A at every symmetric A (eigh contract; such a solver exists: L_C11e.eigh_sym, and the _unconditional theorems use it)',
+               'C09_finite_commit_invariance: det(F) <> 0, det(Fp) <> 0 (stated premises)',
                'flow stress does not drop between eqps_old and the elastic-predictor bound (holds for H >= 0, Ysat >= Y0, n > 0; stated as a premise)',
                'the root finder returns a number (otherwise NaN state: C17 finding F7)',
                'jax.grad / jacfwd of the potential is its derivative']
 RULE = ('inputs: seeded material constants (E, nu, Y0, hardening parameters, rate parameters) for sampled combinations of kinematics x hardening law '
         'x rate sensitivity (quick: 6 of 18 per run covering every kinematics and law; thorough: all 18), batches of multi-step displacement-gradient '
         'histories (monotonic, reversing, non-proportional random walks, repeated states, lanes of tiny increments sweeping the overstress from 1e-12 to 1e-6 Y0 across yield, E/Y0 from 30 to 1e4, perfect plasticity and a saturating Voce law in every run, increments from 1e-3 to 30 yield strains with the accumulated strain norm kept below 0.8, time steps 1e-3..10); '
-        'a step is non-trivial when it yields; distinct = distinct (configuration, history, step) triples that yield')
+        'a step is non-trivial when it yields; distinct = distinct (configuration, history, step) triples that yield; factory histories: pairs of property sets differing in exactly one option group (rate sensitivity on/off, hardening law, kinematics) created one after the other in one process, both orders, fresh constants per pair')
 IMPORTS = ['From OV.gen Require Import Gen_Hardening Gen_J2Flow.', 'From OV.model Require Import M_C09 M_C09T M_C09F.']
 
 KINS = ['large deformations', 'small deformations', 'seth hill']
@@ -173,7 +189,9 @@ def gen_histories(ctx, cfg, nb, ns):
 _STEP = {}
 
 
-def make_step(cfg):
+def make_step(cfg, light=False):
+    """light: skip the stress (jax.grad of the energy through the root solve) before/after committing -- by far the most expensive part to
+    compile; used by the factory-history stream in the quick tier"""
     import jax
     import jax.numpy as jnp
     import optimism  # noqa: F401
@@ -211,9 +229,12 @@ def make_step(cfg):
         s_new = 2 * mu * jnp.tensordot(TensorMath.dev(Enew), N)
         Y_new = hm.compute_flow_stress(new[0], eo, dt)
         W_old = mm.compute_energy_density(H, state, dt)
-        P_old = jax.grad(mm.compute_energy_density)(H, state, dt)
         W_new = mm.compute_energy_density(H, new, dt)
-        P_new = jax.grad(mm.compute_energy_density)(H, new, dt)
+        if light:
+            P_old = P_new = jnp.zeros((3, 3))
+        else:
+            P_old = jax.grad(mm.compute_energy_density)(H, state, dt)
+            P_new = jax.grad(mm.compute_energy_density)(H, new, dt)
         new2 = mm.compute_state_new(H, new, dt)
         span = jnp.maximum(s - Yo, 0.0) / (3 * mu) + 1e-7
         es = eo + grid * span
@@ -237,10 +258,10 @@ def make_step(cfg):
     return jax.jit(jax.vmap(step)), mm
 
 
-def run_config(ctx, cfg, nb, ns):
+def run_config(ctx, cfg, nb, ns, light=False):
     """-> list of per-step records (python floats)"""
     import jax.numpy as jnp
-    stepf, mm = make_step(cfg)
+    stepf, mm = make_step(cfg, light)
     Hs, dts = gen_histories(ctx, cfg, nb, ns)
     Hs, dts = jnp.array(Hs), jnp.array(dts)
     st0 = mm.compute_initial_state()
@@ -256,6 +277,142 @@ def run_config(ctx, cfg, nb, ns):
                              **{q: float(o[q][b]) for q in ('s', 'Yo', 'Y_ub', 'r_near', 'r_hi', 'r_lo', 'dY_new', 's_new', 'Y_new', 'W_old', 'W_new', 'dP', 'Pn', 'phi_star', 'iso', 'trN', 'NN', 'mu')}))
         state = o['new']
     return recs
+
+
+# ----------------------------------------------------------------------------- factory histories (several models created in one process)
+
+RATE_KEYS = ('rate sensitivity', 'rate sensitivity stress', 'rate sensitivity exponent', 'reference plastic strain rate')
+LAW_KEYS = ('hardening model', 'hardening modulus', 'saturation strength', 'reference plastic strain', 'hardening exponent')
+
+
+def ref_flow_stress(P):
+    """the flow stress the property set ASKS for: derivative of the library's own primitive potentials (Hardening.linear / voce / power_law
+    [+ power_law_rate_sensitivity]) evaluated directly with P's constants -- no factory, no cached objects"""
+    import jax
+    from optimism.material import Hardening
+
+    def energy(e, eo, dt):
+        law = P['hardening model']
+        if law == 'linear':
+            w = Hardening.linear(e, P['yield strength'], P['hardening modulus'])
+        elif law == 'voce':
+            w = Hardening.voce(e, P['yield strength'], P['saturation strength'], P['reference plastic strain'])
+        else:
+            w = Hardening.power_law(e, P['yield strength'], P['hardening exponent'], P['reference plastic strain'])
+        if 'rate sensitivity' in P:
+            w = w + Hardening.power_law_rate_sensitivity(e, eo, dt, P['rate sensitivity stress'], P['rate sensitivity exponent'], P['reference plastic strain rate'])
+        return w
+    return jax.grad(energy)
+
+
+def factory_pairs(ctx):
+    """pairs of property sets that differ in exactly ONE option group, each with a creation order; every pair has its own fresh constants"""
+    r = ctx.rng('factory')
+    out = []
+    for order in (0, 1):
+        # rate sensitivity on / off, identical hardening-law constants
+        law = r.choice(LAWS)
+        Pr = gen_props(r, 'small deformations', law, True)
+        Pn = {k: v for k, v in Pr.items() if k not in RATE_KEYS}
+        out.append(('rate', order, [Pr, Pn] if order == 0 else [Pn, Pr]))
+        # hardening law differs, everything else identical (same yield strength)
+        l1, l2 = r.sample(LAWS, 2)
+        P1 = gen_props(r, 'small deformations', l1, False)
+        P2 = gen_props(r, 'small deformations', l2, False)
+        P2 = dict({k: v for k, v in P1.items() if k not in LAW_KEYS}, **{k: v for k, v in P2.items() if k in LAW_KEYS})
+        out.append(('law', order, [P1, P2]))
+        # kinematics differs
+        k1, k2 = r.sample(KINS, 2)
+        P1 = gen_props(r, k1, r.choice(LAWS), r.random() < 0.5)
+        P2 = dict(P1, kinematics=k2)
+        out.append(('kin', order, [P1, P2]))
+    return out
+
+
+def _cfg_of(P):
+    return dict(kin=P['kinematics'], law=P['hardening model'], rate='rate sensitivity' in P, flat=False, props=P)
+
+
+def factory_flow_checks(ctx, group, order, Ps, hms):
+    """the hardening object handed out by the factory for each property set of the pair (created in this order, in this process)
+    against the flow stress that property set asks for"""
+    r = ctx.rng('factory_flow|%s|%d' % (group, order))
+    nbad = 0
+    for i, (P, hm) in enumerate(zip(Ps, hms)):
+        ref = ref_flow_stress(P)
+        Y0 = P['yield strength']
+        for _ in range(4):
+            eo = r.choice([0.0, 10.0 ** r.uniform(-5, -1)])
+            e = eo + 10.0 ** r.uniform(-6, -1)
+            dt = 10.0 ** r.uniform(-3, 1)
+            got, want = float(hm.compute_flow_stress(e, eo, dt)), float(ref(e, eo, dt))
+            ctx.count('factory_flow_comparisons')
+            if not C.close(got, want, rtol=1e-11, atol=1e-13 * Y0):
+                nbad += 1
+                if nbad <= 2:
+                    ctx.fail('conclusion', 'factory history [%s, creation order %d]: the hardening model created as #%d of %d for %s has flow stress %r at eqps=%r eqps_old=%r dt=%r; '
+                             'the library\'s own potentials with these constants give %r' % (group, order, i + 1, len(Ps), P, got, e, eo, dt, want),
+                             case=dict(clause='factory_flow_stress', sig=None, factory=dict(group=group, order=order, created=Ps, index=i), eqps=e, eqps_old=eo, dt=dt,
+                                       cfg=dict(_cfg_of(P))), concrete=True)
+    return nbad
+
+
+def factory_checks(ctx):
+    """stream `factory_history`: Python-state histories of the material FACTORIES.  For pairs of property sets differing in exactly one option
+    group (rate sensitivity on/off, hardening law, kinematics) model A is created, then model B, in one process (both orders, fresh constants
+    per pair).  (1) every hardening object handed out is compared with the flow stress its property set asks for (library potentials evaluated
+    directly); (2) both J2 models are driven through a short history and ALL clause predicates of `concl` are evaluated on both, plus yield
+    consistency against the directly evaluated flow stress.  Quick: (2) only for one rate-sensitivity pair; thorough: every pair."""
+    import optimism  # noqa: F401
+    from optimism.material import Hardening
+    from optimism.material import J2Plastic as J2
+    pairs = factory_pairs(ctx)
+    r = ctx.rng('factory_pick')
+    run_update = set(range(len(pairs))) if not ctx.quick() else {r.choice([i for i, p in enumerate(pairs) if p[0] == 'rate'])}
+    dist = {}
+    for pi, (group, order, Ps) in enumerate(pairs):
+        # creation order = list order: J2 model (its factory creates the hardening model inside), then the bare hardening model
+        mms, hms = [], []
+        for P in Ps:
+            mms.append(J2.create_material_model_functions(P))
+            hms.append(Hardening.create_hardening_model(P))
+        factory_flow_checks(ctx, group, order, Ps, hms)
+        key = '%s/order%d' % (group, order)
+        dist[key] = dict(models=len(Ps), update_predicates=pi in run_update)
+        if pi not in run_update:
+            continue
+        nb, ns = ctx.n(6, 10), ctx.n(5, 8)
+        for i, P in enumerate(Ps):
+            cfg = _cfg_of(P)
+            ref = ref_flow_stress(P)
+            recs = run_config(ctx, cfg, nb, ns, light=True)
+            ny = 0
+            for rec in recs:
+                ctx.count('factory_steps')
+                fac = dict(group=group, order=order, created=Ps, index=i)
+                if rec['new'][0] > rec['state'][0]:
+                    ny += 1
+                for clause, text, sig in concl(cfg, rec, rec['k']):
+                    case = dict(cfg=dict(kin=cfg['kin'], law=cfg['law'], rate=cfg['rate'], props=P), H=rec['H'], dt=rec['dt'], state=rec['state'], new=rec['new'],
+                                clause=clause, sig=sig, step=rec['k'], factory=fac)
+                    ctx.fail('conclusion', 'factory history [%s, creation order %d, model #%d of %d] %s step %d of history %d: %s'
+                             % (group, order, i + 1, len(Ps), clause, rec['k'], rec['b'], text), case=case, concrete=True)
+                # yield consistency against the flow stress the property set asks for (not the factory's object)
+                eo, en = rec['state'][0], rec['new'][0]
+                if en == en and en > eo:
+                    Yref = float(ref(en, eo, rec['dt']))
+                    tol = 1e-10 * P['yield strength']
+                    rnd = 1e-9 * (abs(rec['s']) + P['yield strength']) + 1e-6 * abs(Yref - rec['Y_new'])
+                    if abs(rec['s_new'] - Yref) > tol + rnd and not (cfg['rate'] and rec['r_lo'] <= 0.0 <= rec['r_hi']):
+                        ctx.fail('conclusion', 'factory history [%s, creation order %d, model #%d of %d] plastic step %d of history %d: |stress - flow stress asked for| = %r '
+                                 '(stress %r, flow stress of the library potentials with these constants %r, flow stress of the factory object %r)'
+                                 % (group, order, i + 1, len(Ps), rec['k'], rec['b'], abs(rec['s_new'] - Yref), rec['s_new'], Yref, rec['Y_new']),
+                                 case=dict(cfg=dict(kin=cfg['kin'], law=cfg['law'], rate=cfg['rate'], props=P), H=rec['H'], dt=rec['dt'], state=rec['state'], new=rec['new'],
+                                           clause='factory_yield_consistent', sig=None, step=rec['k'], factory=fac), concrete=True)
+            dist[key]['yielding_model_%d' % (i + 1)] = ny
+            ctx.count('evaluations', len(recs))
+    ctx.cov['factory_history_stream'] = dist
+    ctx.count('factory_pairs', len(pairs))
 
 
 # ----------------------------------------------------------------------------- L2: conclusions on the implementation's outputs
@@ -668,6 +825,8 @@ def correspondence(ctx, model_ok):
     ctx.cov['configurations'] = hist
     structure_checks(ctx)
     ctx.log('implementation histories and conclusions done (%d steps)' % total)
+    factory_checks(ctx)
+    ctx.log('stream factory_history done')
     if not model_ok:
         return
     # ---- L1: regenerated kernels, then the scalar radial-return model against compute_state_new
@@ -729,6 +888,22 @@ def search(ctx, reasons):
 
 def _replay_case(case):
     cfg = case['cfg']
+    fac = case.get('factory')
+    if fac:
+        # a Python-state history: re-create the models of the pair in the recorded order first
+        import optimism  # noqa: F401
+        from optimism.material import Hardening
+        from optimism.material import J2Plastic as J2
+        hms = []
+        for P in fac['created']:
+            J2.create_material_model_functions(P)
+            hms.append(Hardening.create_hardening_model(P))
+        if case.get('clause') == 'factory_flow_stress':
+            P = fac['created'][fac['index']]
+            got = float(hms[fac['index']].compute_flow_stress(case['eqps'], case['eqps_old'], case['dt']))
+            want = float(ref_flow_stress(P)(case['eqps'], case['eqps_old'], case['dt']))
+            bad = [] if C.close(got, want, rtol=1e-11, atol=1e-13 * P['yield strength']) else [('factory_flow_stress', 'flow stress %r, asked for %r' % (got, want), None)]
+            return bad, dict(state=[case['eqps_old']], new=[case['eqps']])
     stepf, mm = make_step(cfg)
     import jax.numpy as jnp
     o = stepf(jnp.array([case['H']]), jnp.array([case['state']]), jnp.array([case['dt']]))
